@@ -47,6 +47,11 @@ type PeerModel struct {
 	StallBudget  int    // how many requests may be ignored in total
 	StallRate    uint32 // x/1000
 	BadBody      map[bitcoin.Hash32]bool
+	// Unsolicited: x/1000 chance per served block request to also push a block body nobody asked
+	// for (a later block of the best chain, a block of an abandoned branch, or an old one again)
+	Unsolicited       uint32
+	UnsolicitedBudget int
+	UnsolicitedSent   map[bitcoin.Hash32]bool
 	Hook         func(pc *PeerConn, msg wire.Message) bool // returns true if it handled the message
 	tape         *simrt.Tape
 }
@@ -273,6 +278,31 @@ func (p *PeerModel) handle(pc *PeerConn, msg wire.Message) {
 		for _, b := range blocks {
 			if p.stall() {
 				continue
+			}
+			if p.UnsolicitedBudget > 0 && p.chance(p.Unsolicited) {
+				p.UnsolicitedBudget--
+				var u *WBlock
+				switch p.tape.Choose(3) {
+				case 0: // further up the best chain than anything in a ten-block window
+					best := p.Best
+					if best.Height > b.Height+11 {
+						u = Ancestor(best, b.Height+11+int(p.tape.Choose(uint32(best.Height-b.Height-11))))
+					}
+				case 1: // some other block of the tree with a body (abandoned branches included)
+					u = p.sim.Tree.Blocks[p.tape.Choose(uint32(len(p.sim.Tree.Blocks)))]
+				default: // an ancestor again
+					if b.Height > 2 {
+						u = Ancestor(b, 1+int(p.tape.Choose(uint32(b.Height-1))))
+					}
+				}
+				if u != nil && u.Txs != nil && u != b {
+					if p.UnsolicitedSent == nil {
+						p.UnsolicitedSent = map[bitcoin.Hash32]bool{}
+					}
+					p.UnsolicitedSent[u.Hash] = true
+					p.sim.c.FaultFired("F-peer-unsolicited-block")
+					pc.Send(u.MsgBlock(false))
+				}
 			}
 			bad := p.BadBody != nil && p.BadBody[b.Hash]
 			pc.Send(b.MsgBlock(bad))
